@@ -29,7 +29,7 @@ ASSUMPTIONS = [
 ]
 BUDGET = {"quick": 80, "thorough": 900}
 ROUNDS = {"thorough": 10}
-FLOORS = {"ode_comparisons": {"quick": 400, "thorough": 4000}, "closed_form_comparisons": {"quick": 80, "thorough": 800},
+FLOORS = {"after_moving_the_epoch_boundaries": {"quick": 40, "thorough": 400}, "ode_comparisons": {"quick": 400, "thorough": 4000}, "closed_form_comparisons": {"quick": 80, "thorough": 800},
           "refinement_pairs": {"quick": 300, "thorough": 3000}, "json_option_checks": {"quick": 150, "thorough": 1500}, "oracle_cross_checks": 50}
 
 OPTIONS = ["survival", "removal_probability", "relative_times", "times_list", "origin_is_root_edge", "rho_absent", "birth_death_model"]
@@ -314,6 +314,20 @@ def _run_case(case):
             C["closed_form_comparisons"] += 1
             if abs(x - cf) > 1e-9 * max(1.0, abs(cf)):
                 V.append(tt.viol("C09:single-epoch:%s" % feat, "single-epoch skyline %.14g differs from the constant-rate closed form %.14g" % (x, cf), **detail))
+        if case["route"] == "json" and d["m"] > 1 and d["rho_h"] is None and not any(d["rho"][1:]) and d["r"] is None and not V:
+            # the same model object after its epoch boundaries were moved through the times parameter: the density of the new epochs
+            import torch
+
+            objs, dic = tt.load(bdsk_json(d, surv, rng))
+            _ = dic["bdsk"]()
+            u = float(rng.uniform(0.8, 0.97))
+            d2 = dict(d, b=[0.0] + [x * u for x in d["b"][1:-1]] + [d["origin"]])
+            dic["bdsk.times"].tensor = torch.tensor([d2["origin"] - x for x in reversed(d2["b"][1:])], dtype=torch.float64)
+            x2 = scalar(dic["bdsk"](), "C09:not-a-number", "BDSKModel()")
+            ref2 = oracle(d2, surv)
+            C["after_moving_the_epoch_boundaries"] = 1
+            if not np.isfinite(x2) or abs(x2 - ref2) > 1e-6 * max(1.0, abs(ref2)):
+                V.append(tt.viol("C09:ode:after-times-update", "after the epoch boundaries were moved (times parameter x %.3g): log density %.12g, master-equation integration for the new epochs %.12g (before the move: %.12g)" % (u, x2, ref2, x), **detail))
         if d["m"] == 1 and d["rho_h"] is None and d["r"] is None and not V:
             # the same two densities with a sample dimension: two rows with different rates, each against the closed form
             import torch
